@@ -196,7 +196,7 @@ func (s *feedStubs) Update(ctx context.Context, logID string, oldSize uint64, ne
 	defer s.mu.Unlock()
 	fail, k := s.next("update")
 	defer s.after()
-	ev := feedEvent{E: "feed.call", Run: s.run, K: k, C: "update", Old: s.absSize(oldSize), CPSub: bytes.Equal(newCP, s.cp)}
+	ev := feedEvent{E: "feed.call", Run: s.run, K: k, C: "update", Old: s.absSize(oldSize), CPSub: s.isTheFetched(newCP)}
 	switch {
 	case s.pfFresh && sameHashes(proof, s.lastPF):
 		ev.PF = "fetched"
@@ -220,6 +220,25 @@ func (s *feedStubs) Update(ctx context.Context, logID string, oldSize uint64, ne
 	}
 	s.ev = append(s.ev, ev)
 	return ret, err
+}
+
+// isTheFetched: what is submitted is the checkpoint that was fetched and verified: the same signed text, carrying the log's valid signature
+// (signature lines of keys the feeder does not know may or may not be passed on).
+func (s *feedStubs) isTheFetched(submitted []byte) bool {
+	if bytes.Equal(submitted, s.cp) {
+		return true
+	}
+	a, err1 := ref.ParseNote(submitted)
+	b, err2 := ref.ParseNote(s.cp)
+	if err1 != nil || err2 != nil || a.Text != b.Text {
+		return false
+	}
+	for _, sg := range a.Sigs {
+		if s.l.Key.VerifyLegacy(a.Text, sg) {
+			return true
+		}
+	}
+	return false
 }
 
 // refWitness is the "recording stub" of C13: an independent reference witness (the harness' own note reader and RFC 6962
@@ -377,7 +396,8 @@ func execFeed(base *world.World, s feedScen, tag string, seed int64) ([]any, err
 	if s.Sub.Auth != "good" {
 		auth = []string{"badsig", "badtext", "unknownkey", "wrongorigin"}[w.Rng.Intn(4)]
 	}
-	sub := w.Concretise("l1", world.Req{Auth: auth, B: s.Sub.B, N: s.Sub.N, Pf: world.Pf{K: "empty"}}, nil)
+	// the log's checkpoint comes in every shape a log may publish: with extension lines, with signature lines of keys the feeder does not know
+	sub := w.Concretise("l1", world.Req{Auth: auth, B: s.Sub.B, N: s.Sub.N, Extra: w.Rng.Intn(3), Ext: w.Rng.Intn(2), Pf: world.Pf{K: "empty"}}, nil)
 	var inner feeder.Witness = witnessAdapterOf(wit)
 	if feedUseStub {
 		rw := &refWitness{w: w, l: l}
